@@ -145,6 +145,11 @@ def enumerate_cases(tier, seed):
             for debug in (False, True):
                 cases.append({"fam": "s", "kind": "dupname", "ctor": ctor, "pattern": list(pattern), "mode": "exposure",
                               "debug": debug, "steps": 2})
+    # the same model name in two groups, one of them re-configured through its dotted key
+    for target in ("first", "second"):
+        for via in ("set", "override", "sweep"):
+            cases.append({"fam": "s", "kind": "dupgroups", "ctor": "py", "target": target, "via": via, "mode": "exposure",
+                          "debug": False, "steps": 1})
     for n in (2, 3):
         cases.append({"fam": "s", "kind": "sameobj", "ctor": "py", "n": n, "mode": "exposure", "debug": False, "steps": 2})
     # other running modes: subsets of <= 3 (quick: <= 2) groups and the full pipeline
@@ -445,6 +450,30 @@ def run_shared(case):
             if got != exp:
                 bad("trace", f"executed {got}, listed {exp}")
             return {"viol": viol, "sig": cfgx.sig(case), "nontrivial": True, "n": len(got), "outcome": [x[:2] for x in got][:6]}
+        if kind == "dupgroups":
+            groups = ("photon_collection", "charge_collection")
+            pipe = mk.pipeline({groups[0]: [mk.model("vp.probes.rec", "dup", {"a": 1}, True)],
+                                "charge_generation": [mk.model("vp.probes.rec", "mid", {"a": 2}, True)],
+                                groups[1]: [mk.model("vp.probes.rec", "dup", {"a": 3}, True)]})
+            det = mk.detector("ccd", 2, 3)
+            g = groups[0] if case["target"] == "first" else groups[1]
+            key = f"pipeline.{g}.dup.arguments.a"
+            want = [1, 2, 3]
+            want[0 if case["target"] == "first" else 2] = 55
+            probes.reset()
+            if case["via"] == "set":
+                Processor(detector=det, pipeline=pipe).set(key, 55)
+                pyxel.run_mode(mk.exposure([1.0]), det, pipe, with_inherited_coords=True)
+            elif case["via"] == "override":
+                pyxel.run_mode(mk.exposure([1.0]), det, pipe, override_dct={key: 55}, with_inherited_coords=True)
+            else:
+                obs = Observation(parameters=[ParameterValues(key=key, values=[55])], readout=mk.readout([1.0]), with_dask=False)
+                pyxel.run_mode(obs, det, pipe, with_inherited_coords=True)
+            got = [(t["name"], t["kw"]) for t in probes.TRACE]
+            exp = [(n, probes.tagged({"a": a})) for n, a in zip(("dup", "mid", "dup"), want)]
+            if got != exp:
+                bad("arguments", f"after {case['via']} of {key}=55 the models received {got}, expected {exp}")
+            return {"viol": viol, "sig": cfgx.sig(case), "nontrivial": True, "n": len(got), "outcome": [x[0] for x in got][:6]}
         # the same model object listed n times in one group
         m = mk.model("vp.probes.rec", "same", {"a": 4}, True)
         pipe = mk.pipeline({"charge_collection": [m] * case["n"]})
@@ -498,7 +527,10 @@ def run_case(case):
         elif mode in ("obs_seq", "obs_dask"):
             from pyxel.observation import Observation, ParameterValues
 
-            obs = Observation(parameters=[ParameterValues(key="detector.environment.temperature", values=[100, 200])],
+            # two swept detector fields: every run must see ITS pair of values in every model call
+            obs = Observation(parameters=[ParameterValues(key="detector.environment.temperature", values=[100, 200]),
+                                          ParameterValues(key="detector.characteristics.quantum_efficiency",
+                                                          values=[0.25, 0.75])],
                               mode="product", readout=mk.readout(times), with_dask=(mode == "obs_dask"))
             if mode == "obs_dask":
                 import dask
@@ -507,10 +539,10 @@ def run_case(case):
                     result = pyxel.run_mode(obs, det, pipe, with_inherited_coords=True)
                     n_meta = len(probes.TRACE)
                     result.load() if hasattr(result, "load") else None
-                repeat = 2
+                repeat = 4
             else:
                 result = pyxel.run_mode(obs, det, pipe, with_inherited_coords=True)
-                repeat = 2
+                repeat = 4
         elif mode == "calibration":
             repeat = _run_calibration_fitness(det, pipe)
     except Exception as e:  # noqa: BLE001
@@ -541,6 +573,19 @@ def run_case(case):
                 bad(_classify(got[:L], exp_seq), f"trace {got} is not a repetition of the predicted single-run trace {exp_seq}")
             elif len(got) // L < repeat:
                 bad("missing-runs", f"only {len(got) // L} runs executed, expected at least {repeat}")
+            elif mode in ("obs_seq", "obs_dask"):
+                # each run is one element of {100, 200} x {0.25, 0.75}: all its model calls see that element, and the four
+                # elements are all there
+                seen_runs = []
+                for i in range(0, len(trace), L):
+                    envs = {tuple(t["env"]) for t in trace[i:i + L] if t.get("env")}
+                    if len(envs) != 1:
+                        bad("swept-values", f"the model calls of one run saw different (temperature, QE): {sorted(envs)}")
+                        break
+                    seen_runs.append(next(iter(envs)))
+                want_runs = {(float(a), float(b)) for a in (100, 200) for b in (0.25, 0.75)}
+                if not want_runs <= set(seen_runs) or set(seen_runs) - want_runs:
+                    bad("swept-values", f"runs saw (temperature, QE) = {sorted(set(seen_runs))}, requested {sorted(want_runs)}")
     # arguments: exactly the configured ones, by value and type
     cfg_args = {name: _args(argname, seed) or {} for g in spec["groups"] for name, en, argname in spec["groups"][g]}
     for t in trace:
